@@ -30,8 +30,12 @@ def units(tier):
     return [
         SL("slice.worker_exit_vs_submit", "x3_worker_exit_vs_submit", 50),
         H("C08", P, "check_adjust", t, [PE + "ProcessPoolExecutor._adjust_process_count"], "0..4 registered, max_workers 1..4"),
+        H("C08", "lokyverif.harness.c08_pool_size", "check_adjust_start_failure", 300, ["loky.process_executor:ProcessPoolExecutor._adjust_process_count"],
+          "0..2 registered, max_workers 1..4, the k-th Process.start() of the top-up fails (k 0..3)"),
         H("C08", P, "check_ensure_running", t, [PE + "ProcessPoolExecutor._ensure_executor_running"], "0..4 registered, max_workers 1..4"),
         H("C08", P, "check_pid_message", t, [PE + "_ExecutorManagerThread.process_result_item"], "1..3 workers, max_workers 1..3, pending/running counts 0..3, executor alive or collected"),
+        H("C08", "lokyverif.harness.c10_resize", "check_resize_aborted", 300, ["loky.reusable_executor:_ReusablePoolExecutor._resize"],
+          "old != new in 1..3, 0..old live workers; the wait for running jobs is aborted by an exception: nothing of the resize may have happened"),
         H("C08", "lokyverif.harness.c10_resize", "check_resize", t, ["loky.reusable_executor:_ReusablePoolExecutor._resize"], "old/new 1..3"),
         ("lokyverif.esym_units", "c08_queue_capacity", {}),
     ]
